@@ -80,7 +80,9 @@ def run(vc):
         p.it.lenient_numpy = False
         baseMVA = real("baseMVA")
         p.assume(to_z(baseMVA) > 0)
-        ppc = PDict({"branch": branch, "bus": bus, "baseMVA": baseMVA})
+        from pyvc.arrays import Arr
+        br_g = Arr(sp, SV(z3.Function("branch_g", I, R)(sp.i)))     # total shunt conductance of the branch in per unit (to_ppc: BR_G column)
+        ppc = PDict({"branch": branch, "bus": bus, "baseMVA": baseMVA, "branch_g": br_g})
         try:
             out = p.call(f"{FP}:_from_ppc_branch", net, ppc, real("f_hz"))
             if out.raised and not created:
@@ -102,9 +104,25 @@ def run(vc):
         w = 2 * to_z(pi()) * real("f_hz").z
         p.prove("line:c", w * to_z(k["c_nf_per_km"].e, R) * 1e-9 * length * zn == G("BR_B"), meta=dict(part="line"),
                 note="2 pi f c' 1e-9 l Z_N == BR_B (inverse of the line build)")
+        p.prove("line:g", to_z(k["g_us_per_km"].e, R) * 1e-6 * length * zn == to_z(br_g.e, R), meta=dict(part="line"),
+                note="g' 1e-6 l Z_N == branch_g (inverse of the line build: BR_G is the whole conductance of the branch, like BR_B)")
         p.prove("line:in_service", truth_z(k["in_service"].e) == (G("BR_STATUS") != 0), meta=dict(part="line"))
     vc.explore("_from_ppc_branch[lines]", h_lines, max_paths=100)
     run_gen(vc)
+    _standins(vc)
+
+
+def _standins(vc):
+    if not hasattr(vc, "native_standins"):
+        vc.native_standins = []
+    vc.native_standins.append(dict(
+        name="ppc / MATPOWER round trips of fixed networks",
+        bound="a 5-bus 110/20 kV network (lines only / with a phase shifter), a network with cost data (controllable elements as gen rows), a "
+              "4-bus network with line conductances, transformers with iron losses (MATPOWER file) and cost data (RATE_A = 0): bus voltages and "
+              "slack power of the round trip network",
+        script="import sys\nfrom replaylib.ppcroundtrip import main, main_costs, main_more\n"
+               "for f in (main, main_costs, main_more):\n    try:\n        f()\n    except SystemExit as e:\n        if e.code:\n            raise\n",
+        timeout=900))
 
 
 def classify(ob, model):
@@ -167,6 +185,9 @@ def replay(ob, model, finding=None):
         return {"script": f"# replay of {ob.id}\nfrom replaylib.ppcroundtrip import main_costs\nmain_costs()\n",
                 "description": "to_ppc -> from_ppc round trip of a network with cost data and a controllable sgen at the bus of a gen / ext_grid whose "
                                "vm_pu is not 1: bus voltages, slack power"}
+    if ob.meta.get("label", ob.id).endswith("line:g") or "line:g" in ob.id:
+        return {"script": f"# replay of {ob.id}\nfrom replaylib.ppcroundtrip import main_more\nmain_more()\n",
+                "description": "round trips of a network with line conductances through the ppc dict and the MATPOWER file: bus voltages, slack power"}
     return {"script": f"# replay of {ob.id}\nfrom replaylib.ppcroundtrip import main\nmain()\n",
             "description": "to_ppc -> from_ppc round trip of networks with lines, transformers (ratio, phase shift, also between buses of one voltage "
                            "level) and impedances: bus voltages, slack power and losses"}
